@@ -20,6 +20,9 @@ MUTATIONS = [
     {"id": "m51b", "prop": "C13", "expect": r"entries:dbread:Row::read<radicle::node::Address>",
      "edits": [(R + "node/address/store.rs", "            // Nb. See `addresses_of`: skip stored addresses that don't parse back.\n            let Ok(addr) = row.try_read::<Address, _>(\"value\") else {\n                continue;\n            };",
                 "            let addr = row.read::<Address, _>(\"value\");")]},
+    {"id": "m51c", "prop": "C13", "expect": r"Session::fetching",
+     "edits": [(N + "service.rs", "        if !session.is_connected() {\n            // This can happen if a session disconnects in the time between asking for seeds to",
+                "        if session.is_disconnected() {\n            // This can happen if a session disconnects in the time between asking for seeds to")]},
     # ---- C25
     {"id": "m50a", "prop": "C25", "expect": r"announcer:local:synced_with|announcer:local:continue",
      "edits": [(R + "node/sync/announce.rs", "        if node == self.local_node {\n            return ControlFlow::Continue(self.progress());\n        }\n", "")]},
